@@ -32,7 +32,8 @@ DecAd(j) == [kind |-> "asm", pds |-> Fn([k \in 1..Len(j.pds) |-> DecPd(j.pds[k])
                  [kind |-> j.conns[k].kind, p1 |-> j.conns[k].p1, p2 |-> j.conns[k].p2,
                   pos1 |-> InRat(j.conns[k].pos1), pos2 |-> InRat(j.conns[k].pos2)]])]
 DecSd(s) == [kind |-> s.kind, ys |-> InRat(s.ys), base |-> s.base, flange |-> s.flange, bb |-> InRat(s.bb), bf |-> InRat(s.bf),
-             mb |-> s.mb, nb |-> s.nb, mf |-> s.mf, nf |-> s.nf]
+             mb |-> s.mb, nb |-> s.nb, mf |-> s.mf, nf |-> s.nf,
+             flam |-> [stack |-> Fn([k \in 1..Len(s.flam.stack) |-> DecPly(s.flam.stack[k])])]]
 DecBd(j) == [kind |-> "bay", skin |-> DecPd(j.skin), cuts |-> RatSeq(j.cuts),
              stiffs |-> Fn([k \in 1..Len(j.stiffs) |-> DecSd(j.stiffs[k])])]
 DecDef(j) == IF j.kind = "asm" THEN DecAd(j) ELSE DecBd(j)
@@ -41,6 +42,7 @@ DecReq(d, j) ==
     CASE j.q \in {"size", "k0", "kM", "place"} -> [q |-> j.q]
       [] j.q = "kG0" -> [q |-> "kG0", N |-> IF d.kind = "asm" THEN Fn([k \in 1..Len(j.N) |-> RatSeq(j.N[k])]) ELSE RatSeq(j.N)]
       [] j.q \in {"fint", "kT"} -> [q |-> j.q, c |-> RatSeq(j.c)]
+      [] j.q = "b1dmass" -> [q |-> "b1dmass", k |-> j.k]
       [] j.q = "fint_part" -> [q |-> "fint_part", k |-> j.k, c |-> RatSeq(j.c)]
       [] j.q = "fext" ->
            IF d.kind = "asm"
@@ -65,7 +67,7 @@ Raised(e) == IF "raised" \in DOMAIN e THEN e.raised ELSE ""
    tiles' sum, which must coincide with the uncut skin's (partition independence, re-checked here) *)
 Expected(d, r, dev) == AQuantity(d, r, dev)
 SpecConsistent(d, r) == (d.kind = "bay" /\ r.q \in {"k0", "kG0", "kM"}) => Vals(SkinSum(d, r, {})) = Vals(SkinUncut(d, r, {}))
-ValueDeviations == { k \in OpenKF : k = "KF_C04_OffsetCouplingSign" }
+ValueDeviations == { k \in OpenKF : k \in {"KF_C04_OffsetCouplingSign", "KF_C13_Blade1DMassCouplingDoubled"} }
 RECURSIVE FirstValueKF(_,_,_,_)
 FirstValueKF(kfs, obs, d, r) ==
     IF kfs = {} THEN "none"
@@ -87,7 +89,11 @@ TEval(e) ==
           ELSE LET bad == BadEntries(e.obs, Shape(r.q, Expected(d, r, {})), TolOf(r.q))
                IN IF bad = {} THEN Verdict(e.id, "ok", {})
                   ELSE LET k == FirstValueKF(ValueDeviations, e.obs, d, r)
-                       IN IF k # "none" THEN Verdict(e.id, "kf:" \o k, Cardinality(bad))
+                           (* an observed direction along which the deviation's own matrix has a negative quadratic form *)
+                           neg == IF k # "none" /\ "wit" \in DOMAIN e
+                                  THEN RSign(Quad(Vals(Expected(d, r, {k})), Fn([i \in 1..Len(e.wit) |-> Obs(e.wit[i])]))) < 0
+                                  ELSE FALSE
+                       IN IF k # "none" THEN Verdict(e.id, "kf:" \o k, <<Cardinality(bad), neg>>)
                           ELSE Verdict(e.id, "fail", Short(bad))
 
 (* placement of the code's own stand-alone component matrices by the specification's placement map *)
@@ -117,7 +123,8 @@ TPlace(e) ==
 TPsd(e) ==
     /\ UNCHANGED avars
     /\ LET ok == e.sym /\ RLe(RNeg(RMul(RTwoPow(-TolPsd), Obs(e.norm))), Obs(e.lmin))
-       IN Verdict(e.id, IF ok THEN "ok" ELSE "fail", <<e.sym, e.lmin, e.norm>>)
+           sig == e.sym /\ e.kind = "b1d" /\ e.q = "kM" /\ "KF_C13_Blade1DMassCouplingDoubled" \in OpenKF
+       IN Verdict(e.id, IF ok THEN "ok" ELSE IF sig THEN "kf:KF_C13_Blade1DMassCouplingDoubled" ELSE "fail", <<e.sym, e.lmin, e.norm>>)
 
 TStep == /\ l <= Len(Trace)
          /\ l' = l + 1
